@@ -24,6 +24,7 @@ Section Proofs.
   Notation run_prefix := (run_prefix A eqb).
   Notation execute := (execute A eqb).
   Notation execute_streamed := (execute_streamed A eqb).
+  Notation pipeline_recv := (pipeline_recv A eqb).
   Notation nofurther_sound := (nofurther_sound A).
   Notation complete := (complete A eqb).
   Notation nodupb := (nodupb A eqb).
@@ -468,6 +469,32 @@ Section Proofs.
     intros P check univ cands arrival err_after Hchk Hc Hok o Hu HP.
     unfold ListObjects.execute_streamed in *. destruct err_after as [k|]; cbn [fst snd] in *; [discriminate|].
     eapply lo_complete; eassumption.
+  Qed.
+
+  (* ---- the pipeline's output stage: DeduplicatingReceiver + the Recv loop of Execute ---- *)
+  Lemma map_fst_nofurther : forall (values : list A), map fst (map (fun v => (v, NoFurtherEval)) values) = values.
+  Proof. induction values as [|v l IH]; simpl; [reflexivity | rewrite IH; reflexivity]. Qed.
+
+  Theorem pipeline_recv_spec : forall (P : A -> bool) values limit,
+    NoDup (pipeline_recv values limit) /\
+    (forall o, In o (pipeline_recv values limit) -> In o values) /\
+    ((forall o, In o values -> P o = true) -> forall o, In o (pipeline_recv values limit) -> P o = true) /\
+    (limit = 0 -> forall o, In o values -> In o (pipeline_recv values limit)) /\
+    length (pipeline_recv values limit) =
+      match limit with
+      | O => length (distinct_objs (map (fun v => (v, NoFurtherEval)) values))
+      | S _ => Nat.min limit (length (distinct_objs (map (fun v => (v, NoFurtherEval)) values)))
+      end.
+  Proof.
+    intros P values limit. unfold ListObjects.pipeline_recv.
+    assert (Hsub : forall o, In o (cut limit (distinct_objs (map (fun v => (v, NoFurtherEval)) values))) -> In o values).
+    { intros o Hin. apply cut_In in Hin. apply distinct_objs_iff in Hin. rewrite map_fst_nofurther in Hin. exact Hin. }
+    split; [|split; [|split; [|split]]].
+    - apply cut_NoDup. apply distinct_objs_NoDup.
+    - exact Hsub.
+    - intros HP o Hin. apply HP. apply Hsub. exact Hin.
+    - intros Hl o Hin. subst limit. simpl. apply distinct_objs_iff. rewrite map_fst_nofurther. exact Hin.
+    - apply cut_length.
   Qed.
 
   (* the stream-level duplicate test used by the oracle is exact *)
